@@ -500,7 +500,10 @@ func (p *Parser) parseData() (names []string, sequences map[string]string, nchar
 					if tok2, lit2, err = p.consumeComment(tok2, lit2); err != nil {
 						stopmatrix = true
 					}
-				case IDENT, NUMERIC:
+				case IDENT, NUMERIC, NEXUS, BEGIN, DATA, TAXA, TAXLABELS, TREES, TREE, DIMENSIONS, NTAX, NCHAR,
+					FORMAT, DATATYPE, MISSING, MATCHCHAR, GAP, MATRIX, END:
+					// Inside the matrix every word is a sequence name or residues, also
+					// when it spells a Nexus keyword (a sequence named DATA, residues END)
 					// We remove whitespaces in sequences if any
 					// and take into account possibly interleaved
 					// sequences
@@ -510,7 +513,8 @@ func (p *Parser) parseData() (names []string, sequences map[string]string, nchar
 					for !stopseq {
 						tok3, lit3 := p.scanIgnoreWhitespace()
 						switch tok3 {
-						case IDENT:
+						case IDENT, NEXUS, BEGIN, DATA, TAXA, TAXLABELS, TREES, TREE, DIMENSIONS, NTAX, NCHAR,
+							FORMAT, DATATYPE, MISSING, MATCHCHAR, GAP, MATRIX, END:
 							sequence = sequence + lit3
 						case ENDOFLINE:
 							stopseq = true
